@@ -33,7 +33,7 @@ ASSUMPTIONS = [
     '(the docstring: "assumed already open")',
 ]
 NSHARDS = 16
-ALPHA = ['a', ' ', '{', '}', '[', ']', '(', ')', '$', '$$', '\\(', '\\)', '\\textbf', '\\alpha',
+ALPHA = ['a', ' ', '{', '}', '[', ']', '(', ')', '<', '>', '$', '$$', '\\(', '\\)', '\\textbf', '\\alpha',
          '\\begin{x}', '\\end{x}', '%c\n', '~', '\\sqrt', '*']
 
 _CTX = []
@@ -113,11 +113,15 @@ def check_nodes_variants(s, pos, res):
     w = walker(s)
     rest = s[pos:]
     # (1) closing brace '}' : contents of the group that the group parser reads on '{' + rest
-    for closer, opener in (('}', '{'), (']', '['), (')', '(')):
-        case = {'what': 'nodes', 's': s, 'pos': pos, 'variant': 'closing-brace', 'arg': closer}
+    for closer, opener, as_pair in (('}', '{', False), (']', '[', False), (')', '(', False),
+                                    ('}', '{', True), (']', '[', True), ('>', '<', True),
+                                    ('>', '<', False)):
+        case = {'what': 'nodes', 's': s, 'pos': pos, 'variant': 'closing-brace', 'arg': closer,
+                'pair': as_pair}
 
         def legacy():
-            nl, p, l = walker(s).get_latex_nodes(pos, stop_upon_closing_brace=closer)
+            arg = (opener, closer) if as_pair else closer
+            nl, p, l = walker(s).get_latex_nodes(pos, stop_upon_closing_brace=arg)
             return (shifted_dump(nl, 0), p, l)
 
         def new():
@@ -135,7 +139,8 @@ def check_nodes_variants(s, pos, res):
             nl = g.nodelist
             p0 = nl.pos + shift if nl.pos is not None else None
             return (shifted_dump(nl, shift), p0, (g.pos_end + shift) - p0)
-        compare('get_latex_nodes(stop_upon_closing_brace=%s)' % closer, attempt(legacy),
+        compare('get_latex_nodes(stop_upon_closing_brace=%s%s)' % (closer, ',pair' if as_pair else ''),
+                attempt(legacy),
                 attempt(new), res, case)
     # (2) end of environment
     case = {'what': 'nodes', 's': s, 'pos': pos, 'variant': 'end-environment', 'arg': 'x'}
